@@ -115,7 +115,8 @@ def run(chk, replay=None):
     for k in range(0, 9):
         w = 1 << k
         cands = []
-        for s in rng.sample(dec_strings(rng, k), 10 if quick else 40):
+        ds = dec_strings(rng, k)
+        for s in rng.sample(ds, min(len(ds), 10 if quick else 40)):
             for u in underscore_variants(rng, s):
                 cands.append((u, "dec", u.replace("_", "")))
         for ln in (w, w - 1 if w > 1 else 2):
